@@ -30,7 +30,7 @@ PROPS["C18"] = dict(
                "fields stay inside the width of the wire field they describe (silent truncation of out-of-range API input is not judged); reserved flag bits the "
                "API models as named booleans are not generated; 2-octet-AS encodings are a session re-encoding (C14). The server unit does not compare fields a "
                "request leaves at the proto3 default (the server may fill in defaults) nor fields newNeighborFromAPIStruct/newPeerGroupFromAPIStruct never read "
-               "(send_community, mtu_discovery, remote_address, stale_routes_time, mode, peer-group conf.type); VRF, unnumbered neighbors and BFD sessions are not started.",
+               "(send_community, mtu_discovery, remote_address, stale_routes_time, mode, peer-group conf.type and transport.local_port); VRF, unnumbered neighbors and BFD sessions are not started.",
     technique="runtime round-trip monitor: native->API->native judged by re-serialised wire bytes (+Len, String), API->native->API judged by proto.Equal modulo documented "
               "slack, panic guard; configuration read-back monitor on a live BgpServer (request vs List* response, field by field)",
     rule="apiutil case = one generated native value (or attribute list + NLRI as api.Path, or one hand-built API message) x MarshallingOption set (ADD-PATH per family); "
